@@ -105,7 +105,8 @@ PROPS["C07"] = dict(
                "(loop invariants a*x == v, d*x == -u mod p with explicit witnesses; a halving budget bounds the 192-bit accumulators). "
                "The 128-bit field's wrappers (new, + - * / neg, inv, double, square, exp / exp_vartime over u128 exponents) are proved against "
                "those primitives, and get_root_of_unity of all three fields returns, for every admissible n, an element of order exactly 2^n.",
-    level_note="Trusted: Kani/CBMC/CaDiCaL, Verus/Z3, rustc; the Verus units assume no Kani-proved contract any more (the 64-bit field's "
+    level_note="Alongside the proof obligations a bounded stand-in (field_native: the real operations against an independent add-and-double reference on boundary values and seeded operands) runs as a safety net for edits that make a statement-anchored proof undecided; it is reported under coverage.native_bounded_standins and is not counted among the obligations. "
+               "Trusted: Kani/CBMC/CaDiCaL, Verus/Z3, rustc; the Verus units assume no Kani-proved contract any more (the 64-bit field's "
                "Montgomery reductions, + and - are proved from their bodies by both engines); the 128-bit wrapper unit f128e assumes the clauses "
                "unit f128v proves for the raw add / sub / mul / inv (cross-unit, same back end); primality of the moduli / Fermat for inv; type shims "
                "for BaseElement in the Verus files. Functions not under contract are listed in DESIGN.md 4.C07.",
@@ -137,7 +138,8 @@ PROPS["C08"] = dict(
                "128-bit fields) are cut out of /repo on every run and proved by Verus to compute, coefficient by coefficient, the "
                "schoolbook product reduced by the documented irreducible polynomial (resp. the documented conjugation map), "
                "modulo p, for all operands; the proof bookkeeping is generated mechanically from the body text.",
-    level_note="Assumed (cross-unit): the residue-level contracts of the base-field operators (+, -, *, neg, double, square, new), "
+    level_note="Alongside the proof obligations a bounded stand-in (field_native: the real operations against an independent add-and-double reference on boundary values and seeded operands) runs as a safety net for edits that make a statement-anchored proof undecided; it is reported under coverage.native_bounded_standins and is not counted among the obligations. "
+               "Assumed (cross-unit): the residue-level contracts of the base-field operators (+, -, *, neg, double, square, new), "
                "which C07's units establish for the real code. Extension inversion is decided structurally only (zero test on every coefficient, the norm-based formula, the "
                "code's debug assertions) against an abstract base field; that the formula is the inverse is assumed. The generic wrapper types' plumbing (new, to_base_elements, "
                "base_element, double, square, conjugate, mul_base, + - * / neg, From<B>) is proved against an abstract base field (unit extwrap). Not covered: the "
